@@ -127,7 +127,28 @@ def _one_build(X, capi, default_conf, sl, roots, rnd, tier, want_first, max_idx,
     for cls, plist in per_cls:
         for rep in range(2 if tier == "quick" else 4):
             val = sl.value(cls, rnd)
-            obj = grammar.place(cls, val, rnd)
+            obj = None
+            if rep % 2 == 0 and X.struct.is_struct(cls) and any(X.ref.is_ref(f.ftype) or X.ref.is_unionref(f.ftype) for f in cls._fields):
+                # history: the referents exist in the buffer before the holder is built, so the stored (slot-relative) offsets are negative
+                try:
+                    buf0 = X.ContextCpu().new_buffer(capacity=rnd.choice([64, 256]))
+                    buf0.allocate(rnd.choice([8, 24]))
+                    v2 = dict(val)
+                    for f in cls._fields:
+                        fv = v2.get(f.name)
+                        if fv is None:
+                            continue
+                        if X.ref.is_ref(f.ftype):
+                            T_ = f.ftype._reftype
+                            v2[f.name] = T_(**fv, _buffer=buf0) if isinstance(fv, dict) else T_(fv, _buffer=buf0)
+                        elif X.ref.is_unionref(f.ftype):
+                            M_ = [m for m in f.ftype._reftypes if m.__name__ == fv[0]][0]
+                            v2[f.name] = M_(**fv[1], _buffer=buf0) if isinstance(fv[1], dict) else M_(fv[1], _buffer=buf0)
+                    obj = cls(**v2, _buffer=buf0)
+                except Exception:  # noqa  (this way of building the object is not what is tested here)
+                    obj = None
+            if obj is None:
+                obj = grammar.place(cls, val, rnd)
             if rep % 2 == 1 and plist and plist[0][1]:
                 # history: a kernel call, then allocations that enlarge (and relocate) the buffer, then more calls
                 k0 = [k for _, k in plist[0][1] if k is not None and "getp" in k.c_name]
